@@ -3,17 +3,48 @@
   one or more lines followed by a line `END`).  Imports model/spec files only (no Mathlib).
 -/
 import Scc.Runtime.Current
+import Scc.Sexp
+import Scc.Fun.Syntax
+import Scc.Core.Syntax
+import Scc.AxCut.Syntax
 
-def dispatch (line : String) : String :=
+open Scc
+
+def fuelOf (s : String) : Nat := s.length + 10
+
+/-- `sx <kind> <file>`: read a dump, parse it into the Lean syntax, render it again. -/
+def roundtrip (kind : String) (text : String) : String :=
+  match Sexp.parse text with
+  | none => "ERR sexp"
+  | some sx =>
+    let fuel := fuelOf text
+    match kind with
+    | "fun" => match Fun.readProgram fuel sx with
+      | some p => "OK " ++ p.toSexp.render | none => "ERR read"
+    | "checked" => match Fun.readChecked fuel sx with
+      | some p => "OK " ++ p.toSexp.render | none => "ERR read"
+    | "core" => match Core.readProg fuel sx with
+      | some p => "OK " ++ p.toSexp.render | none => "ERR read"
+    | "fscore" => match Core.readFsProg fuel sx with
+      | some p => "OK " ++ p.toSexp.render | none => "ERR read"
+    | "axcut" => match AxCut.readProg fuel sx with
+      | some p => "OK " ++ p.toSexp.render | none => "ERR read"
+    | _ => "ERR kind"
+
+def dispatch (line : String) : IO String := do
   let line := line.trimAscii.toString
   match line.splitOn " " with
-  | "rt" :: rest => Scc.Runtime.handleLineCur (" ".intercalate rest)
-  | _ => "ERR unknown component"
+  | "rt" :: rest => pure (Scc.Runtime.handleLineCur (" ".intercalate rest))
+  | ["sx", kind, file] => do
+    let text ← IO.FS.readFile file
+    pure (roundtrip kind text)
+  | _ => pure "ERR unknown component"
 
 partial def loop (h : IO.FS.Stream) (out : IO.FS.Stream) : IO Unit := do
   let line ← h.getLine
   if line.isEmpty then return ()
-  out.putStrLn (dispatch line)
+  let reply ← try dispatch line catch e => pure s!"ERR io {e}"
+  out.putStrLn reply
   out.putStrLn "END"
   out.flush
   loop h out
